@@ -249,7 +249,7 @@ MANIFEST_ENTRY = {
             "Image/ImageBatch methods after every operation of chains <= 3, per-image grids, ramp and random images.",
     "note": "Partial: the chain theorem is stated over an abstract step relation (the per-operation theorems are its instances; composed chains are "
             "checked by the correspondence and the implementation-side search); shape_agrees is proved for crop and resize only (other shapes are "
-            "compared in the correspondence); 3-D versions of pad / center crop / pad, narrow, ROI, pooling are covered by the per-axis lemmas + "
+            "compared in the correspondence); 3-D pad / center crop / center pad are proved; 3-D narrow, ROI and pooling are covered by the per-axis lemmas + "
             "correspondence, not by separate N-D theorems; Gaussian pre-smoothing enters through oracle tap values + the stencil lemma. REFUTED on the "
             "code (faithful model, vm_compute witness + implementation replay, known findings): upsample after a fractional-size downsample "
             "doubles the tensor shape while the grid restores the original size; avg_pool with a tuple kernel reads it in opposite orders for "
